@@ -12,7 +12,8 @@
 (*    remainders that begin inside a character.                              *)
 (* Law is the property: cut to the first max characters, then pad with the   *)
 (* fill on the chosen side up to min characters, counting characters.        *)
-(* The producer is whatever the spec is attached to: a formatter, a group,   *)
+(* The producer is whatever the spec is attached to: a formatter, a group    *)
+(* (around formatters or around literal characters of the pattern alone),    *)
 (* a conditional group - its body where it is active, and nothing at all     *)
 (* (`text = <<>>`, hence all padding) where the build makes it inactive,     *)
 (* whatever its body would have rendered; the replay uses all of these.      *)
